@@ -238,23 +238,30 @@ Proof.
   destruct H as [H1 H2]. unfold blanks, tag in *. cbn [map forallb fst]. rewrite H1. exact (IH H2).
 Qed.
 
+(* in a list without break / reposition nodes, "the next plain node is a separator" means that only italics nodes
+   follow: nothing more is shown *)
+Lemma npis_render_nil : forall l, simple l -> next_plain_is_sep l = true ->
+  forall b, render b l = [] /\ render b (strip_line_ends l) = [].
+Proof.
+  induction l as [|n t IH]; intros H Hs b; [split; reflexivity|].
+  apply simple_cons in H. destruct H as [Hk H]. rewrite sle_cons2.
+  destruct n as [k x q]; destruct k; try discriminate Hk;
+    cbn [next_plain_is_sep is_on is_off is_break is_repos is_text i_kind orb andb] in Hs |- *; try discriminate Hs;
+    cbn [render i_kind]; apply (IH H Hs).
+Qed.
+
 Lemma sle_render : forall l b, simple l -> exists sp, render b l = render b (strip_line_ends l) ++ sp /\ blanks sp.
 Proof.
   induction l as [|n t IH]; intros b H; [exists []; split; reflexivity|].
-  apply simple_cons in H. destruct H as [Hk H]. destruct t as [|m t'].
-  - destruct n as [k x q]; destruct k; try discriminate Hk; cbn [strip_line_ends is_text i_kind render i_text rstrip_node].
-    + destruct (rstrip_split x) as [sp [E F]]. exists (tag b sp). split; [|exact (blanks_tag b sp F)].
-      rewrite !app_nil_r. rewrite E at 1. apply tag_app.
-    + exists []. split; reflexivity.
-    + exists []. split; reflexivity.
-  - rewrite sle_cons2.
-    assert (Hm : is_break m = false).
-    { apply simple_cons in H. destruct H as [Hm _]. unfold is_break. destruct (i_kind m); try discriminate; reflexivity. }
-    rewrite Hm, andb_false_r. generalize dependent (m :: t'). intros u IH H.
-    destruct n as [k x q]; destruct k; try discriminate Hk; cbn [render i_kind i_text].
+  apply simple_cons in H. destruct H as [Hk H]. rewrite sle_cons2.
+  destruct n as [k x q]; destruct k; try discriminate Hk; cbn [is_text i_kind andb].
+  - destruct (next_plain_is_sep t) eqn:Es; cbn [render i_kind i_text rstrip_node].
+    + destruct (npis_render_nil t H Es b) as [E1 E2]. rewrite E1, E2, !app_nil_r.
+      destruct (rstrip_split x) as [sp [E F]]. exists (tag b sp). split; [|exact (blanks_tag b sp F)].
+      rewrite E at 1. apply tag_app.
     + destruct (IH b H) as [sp [E F]]. exists sp. split; [rewrite E, app_assoc; reflexivity|exact F].
-    + exact (IH true H).
-    + exact (IH false H).
+  - cbn [render i_kind]. exact (IH true H).
+  - cbn [render i_kind]. exact (IH false H).
 Qed.
 
 Lemma sle_simple : forall l, simple l -> simple (strip_line_ends l).
@@ -264,9 +271,7 @@ Lemma sle_tpos : forall p l, tpos p l -> tpos p (strip_line_ends l).
 Proof.
   intros p. induction l as [|n t IH]; intros H; [constructor|]. inversion H as [|? ? Hn Ht]; subst.
   assert (Hr : is_text (rstrip_node n) = true -> i_pos (rstrip_node n) = p) by exact Hn.
-  destruct t as [|m t'].
-  - cbn [strip_line_ends]. destruct (is_text n); constructor; try assumption; constructor.
-  - rewrite sle_cons2. constructor; [|exact (IH Ht)]. destruct (is_text n && is_break m); assumption.
+  rewrite sle_cons2. constructor; [|exact (IH Ht)]. destruct (is_text n && next_plain_is_sep t); assumption.
 Qed.
 
 Lemma format_render : forall p l, simple l -> tpos p l ->
@@ -754,8 +759,8 @@ Proof.
   destruct (add_chars_rep p dflt nodes sty rend ital (a ++ b) Hh) as (nodes' & Ea & Ga).
   exists nodes'. split; [|exact Ga]. unfold GSc.
   destruct (char_word_class w a b Ha Hb) as (Hc & Hp & Hs & He & Ht & Hq & Hbs).
-  unfold translate_word. proj_red. unfold handle_double. proj_red. rewrite Hc, Hp, Hs, He, Ht, Hq, Hbs.
-  proj_red. rewrite !andb_false_r. proj_red. rewrite Ha, Hb. unfold add_to_buf. proj_red.
+  unfold translate_word. proj_red. unfold handle_double. proj_red. rewrite Hc, Hp, Hs, He, Ht, Hq.
+  proj_red. rewrite ?andb_false_r. proj_red. rewrite Ha, Hb. unfold add_to_buf. proj_red.
   rewrite Ea. proj_red. reflexivity.
 Qed.
 
@@ -794,10 +799,10 @@ Qed.
 
 Lemma dt_code_c : forall w k l nodes sty fr, kind_ok w k -> d = true -> doubled_type (GSc l nodes sty fr) w = true.
 Proof.
-  intros w k l nodes sty fr Hk Hd. unfold doubled_type, GSc. proj_red. rewrite Hd.
+  intros w k l nodes sty fr Hk _. unfold doubled_type.
   destruct k as [ch|ch|]; cbn [kind_ok] in Hk.
   - rewrite Hk. rewrite orb_true_r. reflexivity.
-  - rewrite Hk. cbn [andb orb]. apply orb_true_r.
+  - rewrite Hk. apply orb_true_r.
   - subst w. vm_compute. reflexivity.
 Qed.
 
@@ -849,7 +854,7 @@ Proof.
   intros a nodes sty fr n Ha. destruct (mid_facts a Ha) as (_ & _ & Hbs & _ & Hq & _). destruct (midrow_classes a Ha) as (_ & Hc & _).
   rewrite tw_second; [|reflexivity|reflexivity|].
   - rewrite Hq. reflexivity.
-  - unfold doubled_type. rewrite Hbs, Hc. reflexivity.
+  - unfold doubled_type. rewrite Hc. reflexivity.
 Qed.
 
 Lemma mid_run : forall a pc l nodes sty rend ital fr nx, 0 <= a < 16 -> (pc = Some (midrow_word a) -> ital = is_italic_attr a) ->
